@@ -116,37 +116,44 @@ theorem cases_run (m : M σ α) (s : σ) :
   | ok a => exact .inl ⟨a, s', rfl⟩
   | error e => exact .inr ⟨e, s', rfl⟩
 
-/-! ### compositional predicates -/
+/-! ### compositional predicates (structures, so that tactics never unfold them by accident) -/
 
 /-- never changes the state (queries, validation) -/
-def ReadOnly (m : M σ α) : Prop := ∀ s, (m s).2 = s
+structure ReadOnly (m : M σ α) : Prop where
+  h : ∀ s, (m s).2 = s
 /-- never raises -/
-def Total (m : M σ α) : Prop := ∀ s, ¬ failed (m s)
+structure Total (m : M σ α) : Prop where
+  h : ∀ s, ¬ failed (m s)
 /-- C09 for one call: a raise leaves the state as it was -/
-def Atomic (m : M σ α) : Prop := ∀ s, failed (m s) → (m s).2 = s
+structure Atomic (m : M σ α) : Prop where
+  h : ∀ s, failed (m s) → (m s).2 = s
 
-theorem ReadOnly.atomic {m : M σ α} (h : ReadOnly m) : Atomic m := fun s _ => h s
-theorem Total.atomic {m : M σ α} (h : Total m) : Atomic m := fun s hf => absurd hf (h s)
+theorem ReadOnly.atomic {m : M σ α} (h : ReadOnly m) : Atomic m := ⟨fun s _ => h.h s⟩
+theorem Total.atomic {m : M σ α} (h : Total m) : Atomic m := ⟨fun s hf => absurd hf (h.h s)⟩
 
-theorem readOnly_pure (a : α) : ReadOnly (Pure.pure a : M σ α) := fun _ => rfl
-theorem readOnly_raise (e : Err) : ReadOnly (raise e : M σ α) := fun _ => rfl
-theorem readOnly_read (f : σ → α) : ReadOnly (read f) := fun _ => rfl
-theorem readOnly_get : ReadOnly (get : M σ σ) := fun _ => rfl
-theorem readOnly_ofExcept (x : Except Err α) : ReadOnly (ofExcept x : M σ α) := fun _ => rfl
+theorem readOnly_pure (a : α) : ReadOnly (Pure.pure a : M σ α) := ⟨fun _ => rfl⟩
+theorem readOnly_pure' (a : α) : ReadOnly (M.pure a : M σ α) := ⟨fun _ => rfl⟩
+theorem readOnly_raise (e : Err) : ReadOnly (raise e : M σ α) := ⟨fun _ => rfl⟩
+theorem readOnly_read (f : σ → α) : ReadOnly (read f) := ⟨fun _ => rfl⟩
+theorem readOnly_get : ReadOnly (get : M σ σ) := ⟨fun _ => rfl⟩
+theorem readOnly_ofExcept (x : Except Err α) : ReadOnly (ofExcept x : M σ α) := ⟨fun _ => rfl⟩
 theorem readOnly_guard (c : Bool) (e : Err) : ReadOnly (guard c e : M σ Unit) := by
-  intro s; simp only [guard]; split <;> rfl
-theorem total_pure (a : α) : Total (Pure.pure a : M σ α) := fun s => by simp
-theorem total_modify (f : σ → σ) : Total (modify f) := fun s => by simp
-theorem total_set (s' : σ) : Total (set s') := fun s => by simp
-theorem total_read (f : σ → α) : Total (read f) := fun s => by simp
+  constructor; intro s; simp only [guard]; split <;> rfl
+theorem total_pure (a : α) : Total (Pure.pure a : M σ α) := ⟨fun s => by simp⟩
+theorem total_modify (f : σ → σ) : Total (modify f) := ⟨fun s => by simp⟩
+theorem total_set (s' : σ) : Total (set s') := ⟨fun s => by simp⟩
+theorem total_read (f : σ → α) : Total (read f) := ⟨fun s => by simp⟩
 
 theorem ReadOnly.bind {m : M σ α} {f : α → M σ β} (hm : ReadOnly m) (hf : ∀ a, ReadOnly (f a)) :
     ReadOnly (m >>= f) := by
-  intro s
-  have h1 := hm s
+  constructor; intro s
+  have h1 := hm.h s
   rcases cases_run m s with ⟨a, s', h⟩ | ⟨e, s', h⟩
-  · rw [bind_ok h]; rw [h] at h1; simp at h1; subst h1; exact hf a _
+  · rw [bind_ok h]; rw [h] at h1; simp at h1; subst h1; exact (hf a).h _
   · rw [bind_err h]; rw [h] at h1; simpa using h1
+
+theorem ReadOnly.bind' {m : M σ α} {f : α → M σ β} (hm : ReadOnly m) (hf : ∀ a, ReadOnly (f a)) :
+    ReadOnly (M.bind m f) := ReadOnly.bind hm hf
 
 theorem ReadOnly.ite {c : Prop} [Decidable c] {x y : M σ α} (hx : ReadOnly x) (hy : ReadOnly y) :
     ReadOnly (if c then x else y) := by split <;> assumption
@@ -154,61 +161,108 @@ theorem ReadOnly.ite {c : Prop} [Decidable c] {x y : M σ α} (hx : ReadOnly x) 
 /-- validate-before-mutate: a read-only prefix followed by an atomic tail is atomic -/
 theorem Atomic.bind_readOnly {m : M σ α} {f : α → M σ β} (hm : ReadOnly m) (hf : ∀ a, Atomic (f a)) :
     Atomic (m >>= f) := by
-  intro s hfail
-  have h1 := hm s
+  constructor; intro s hfail
+  have h1 := hm.h s
   rcases cases_run m s with ⟨a, s', h⟩ | ⟨e, s', h⟩
-  · rw [bind_ok h] at hfail ⊢; rw [h] at h1; simp at h1; subst h1; exact hf a _ hfail
+  · rw [bind_ok h] at hfail ⊢; rw [h] at h1; simp at h1; subst h1; exact (hf a).h _ hfail
   · rw [bind_err h]; rw [h] at h1; simpa using h1
 
 /-- an atomic call followed by calls that cannot raise is atomic -/
 theorem Atomic.bind_total {m : M σ α} {f : α → M σ β} (hm : Atomic m) (hf : ∀ a, Total (f a)) :
     Atomic (m >>= f) := by
-  intro s hfail
+  constructor; intro s hfail
   rcases cases_run m s with ⟨a, s', h⟩ | ⟨e, s', h⟩
-  · rw [bind_ok h] at hfail; exact absurd hfail (hf a s')
-  · rw [bind_err h]; have := hm s (by rw [h]; simp); rw [h] at this; simpa using this
+  · rw [bind_ok h] at hfail; exact absurd hfail ((hf a).h s')
+  · rw [bind_err h]; have := hm.h s (by rw [h]; simp); rw [h] at this; simpa using this
 
 theorem Atomic.ite {c : Prop} [Decidable c] {x y : M σ α} (hx : Atomic x) (hy : Atomic y) :
     Atomic (if c then x else y) := by split <;> assumption
 
 theorem Total.bind {m : M σ α} {f : α → M σ β} (hm : Total m) (hf : ∀ a, Total (f a)) : Total (m >>= f) := by
-  intro s
+  constructor; intro s
   rcases cases_run m s with ⟨a, s', h⟩ | ⟨e, s', h⟩
-  · rw [bind_ok h]; exact hf a s'
-  · exact absurd (by rw [h]; simp) (hm s)
-
-theorem ReadOnly.bind' {m : M σ α} {f : α → M σ β} (hm : ReadOnly m) (hf : ∀ a, ReadOnly (f a)) :
-    ReadOnly (M.bind m f) := ReadOnly.bind hm hf
+  · rw [bind_ok h]; exact (hf a).h s'
+  · exact absurd (by rw [h]; simp) (hm.h s)
 
 theorem readOnly_mapM' {γ : Type} {l : List β} {f : β → M σ γ} (hf : ∀ b, ReadOnly (f b)) : ReadOnly (mapM' f l) := by
   induction l with
-  | nil => exact fun _ => rfl
+  | nil => exact ⟨fun _ => rfl⟩
   | cons x xs ih =>
-    exact ReadOnly.bind' (hf x) (fun _ => ReadOnly.bind' ih (fun _ => fun _ => rfl))
+    exact ReadOnly.bind' (hf x) (fun _ => ReadOnly.bind' ih (fun _ => ⟨fun _ => rfl⟩))
 
 theorem readOnly_filterMapM' {γ : Type} {l : List β} {f : β → M σ (Option γ)} (hf : ∀ b, ReadOnly (f b)) :
     ReadOnly (filterMapM' f l) := by
   induction l with
-  | nil => exact fun _ => rfl
+  | nil => exact ⟨fun _ => rfl⟩
   | cons x xs ih =>
-    exact ReadOnly.bind' (hf x) (fun _ => ReadOnly.bind' ih (fun _ => fun _ => rfl))
+    exact ReadOnly.bind' (hf x) (fun _ => ReadOnly.bind' ih (fun _ => ⟨fun _ => rfl⟩))
 
 theorem readOnly_forEach {l : List β} {f : β → M σ Unit} (hf : ∀ b, ReadOnly (f b)) : ReadOnly (forEach l f) := by
   induction l with
-  | nil => exact fun _ => rfl
-  | cons x xs ih => exact ReadOnly.bind (m := f x) (f := fun _ => forEach xs f) (hf x) (fun _ => ih)
+  | nil => exact ⟨fun _ => rfl⟩
+  | cons x xs ih => exact ReadOnly.bind' (hf x) (fun _ => ih)
 
-/-- `try m except p: h` where the handler always re-raises and restores what `m` started from -/
+/-- `try m except p: h` where every failure of `m` is selected and the handler, when it re-raises, has restored the start state -/
 theorem Atomic.tryCatch_rollback {m : M σ α} {p : Err → Bool} {h : Err → M σ α}
     (hp : ∀ s e s', m s = (.error e, s') → p e = true)
     (hr : ∀ s e s', m s = (.error e, s') → failed (h e s') → (h e s').2 = s) :
     Atomic (tryCatch m p h) := by
-  intro s hfail
+  constructor; intro s hfail
   rcases cases_run m s with ⟨a, s', hm⟩ | ⟨e, s', hm⟩
   · simp [tryCatch, hm] at hfail
   · have hpe := hp s e s' hm
     simp only [tryCatch, hm, hpe, if_true] at hfail ⊢
     exact hr s e s' hm hfail
+
+/-! ### invariant preservation (C07) -/
+
+/-- running `m` keeps `P`, whether it returns or raises -/
+structure Preserves (P : σ → Prop) (m : M σ α) : Prop where
+  h : ∀ s, P s → P (m s).2
+
+theorem ReadOnly.preserves {P : σ → Prop} {m : M σ α} (h : ReadOnly m) : Preserves P m :=
+  ⟨fun s hs => by rw [h.h s]; exact hs⟩
+
+theorem preserves_modify {P : σ → Prop} {f : σ → σ} (hf : ∀ s, P s → P (f s)) : Preserves P (modify f) :=
+  ⟨fun s hs => hf s hs⟩
+
+theorem Preserves.bind {P : σ → Prop} {m : M σ α} {f : α → M σ β} (hm : Preserves P m) (hf : ∀ a, Preserves P (f a)) :
+    Preserves P (m >>= f) := by
+  constructor; intro s hs
+  have h1 := hm.h s hs
+  rcases cases_run m s with ⟨a, s', h⟩ | ⟨e, s', h⟩
+  · rw [bind_ok h]; rw [h] at h1; exact (hf a).h _ h1
+  · rw [bind_err h]; rw [h] at h1; exact h1
+
+theorem Preserves.bind' {P : σ → Prop} {m : M σ α} {f : α → M σ β} (hm : Preserves P m) (hf : ∀ a, Preserves P (f a)) :
+    Preserves P (M.bind m f) := Preserves.bind hm hf
+
+theorem Preserves.ite {P : σ → Prop} {c : Prop} [Decidable c] {x y : M σ α} (hx : Preserves P x) (hy : Preserves P y) :
+    Preserves P (if c then x else y) := by split <;> assumption
+
+theorem Preserves.tryCatch {P : σ → Prop} {m : M σ α} {p : Err → Bool} {h : Err → M σ α}
+    (hm : Preserves P m) (hh : ∀ e, Preserves P (h e)) : Preserves P (tryCatch m p h) := by
+  constructor; intro s hs
+  have h1 := hm.h s hs
+  rcases cases_run m s with ⟨a, s', hr⟩ | ⟨e, s', hr⟩
+  · simp only [M.tryCatch, hr]; rw [hr] at h1; exact h1
+  · rw [hr] at h1
+    simp only [M.tryCatch, hr]
+    split
+    · exact (hh e).h _ h1
+    · exact h1
+
+theorem preserves_forEach {P : σ → Prop} {l : List β} {f : β → M σ Unit} (hf : ∀ b, Preserves P (f b)) :
+    Preserves P (forEach l f) := by
+  induction l with
+  | nil => exact ⟨fun _ hs => hs⟩
+  | cons x xs ih => exact Preserves.bind' (hf x) (fun _ => ih)
+
+theorem preserves_mapM' {P : σ → Prop} {γ : Type} {l : List β} {f : β → M σ γ} (hf : ∀ b, Preserves P (f b)) :
+    Preserves P (mapM' f l) := by
+  induction l with
+  | nil => exact ⟨fun _ hs => hs⟩
+  | cons x xs ih => exact Preserves.bind' (hf x) (fun _ => Preserves.bind' ih (fun _ => ⟨fun _ hs => hs⟩))
 
 end M
 end FimVerif
